@@ -26,7 +26,9 @@ TECHNIQUE = 'runtime monitoring: differential reference-model monitor (independe
 ALPHABET = ['-', '- ', '-----BEGIN PGP SIGNATURE-----', '-----BEGIN PGP SIGNED MESSAGE-----', 'From here', '', 'a', 'trailing space ', 'trailing tab\t', 'mixed \t ',
             '- - already escaped', '--', 'Hash: SHA1', 'é accent', '日本語', '\U0001F600 emoji', ' leading space', 'x' * 300, '-----END PGP SIGNATURE-----', '=abcd',
             # characters that Python's str.splitlines() treats as line boundaries but OpenPGP does not, each followed by a dash
-            'lone cr\r-dash', 'form feed\x0c- dash', 'vt\x0b-dash', 'nel\u0085-dash', 'ls\u2028- dash', 'ps\u2029-dash', 'fs\x1c-dash \x1d-- \x1e-']
+            'lone cr\r-dash', 'form feed\x0c- dash', 'vt\x0b-dash', 'nel\u0085-dash', 'ls\u2028- dash', 'ps\u2029-dash', 'fs\x1c-dash \x1d-- \x1e-',
+            # text that is not in Unicode normalisation form C (decomposed accent, conjoining jamo, compatibility characters): signed as it stands
+            'e\u0301 decomposed', '\u1112\u1161\u11ab jamo \u212b \u2126', '\U0002F804 compat \ufb01']
 SIGNERS = ['ed25519_0', 'rsa1024_0', 'dsa1024_0', 'ecdsa_p256_0']
 
 
